@@ -67,6 +67,62 @@ def _strip_cast(t):
     return t
 
 
+def _wordwise_alt(crate, I, b, tr, backs):
+    """forms of the word-wise operators other than the zip chain; None when none applies"""
+    p1, p2 = ("param", 1, I.names.get(1)), ("param", 2, I.names.get(2))
+    N_ = ("gparam", "N")
+    # --- binary operator as { let mut r = self.clone(); r op= rhs; r }
+    if tr in ("BitAnd", "BitOr", "BitXor") and not backs:
+        for st in I.final_states:
+            evs = [e for e in st.event_list() if e.kind == "call"]
+            cl = [e for e in evs if e.extra.get("name") == "clone"]
+            asg = [e for e in evs if (e.extra.get("trait") or "").split("::")[-1] == tr + "Assign"]
+            ret = util.ret_term(st)
+            ok = len(cl) == 1 and len(asg) == 1 and cl[0].args[0] in (("ref", ("deref", p1)), p1) and asg[0].args[1] in (p2, ("ref", ("deref", p2)))
+            ok = ok and asg[0].args[0][0] == "ref" and asg[0].args[0][1][0] == "local" and ret[0] == "out" and ret[2] == asg[0].args[0][1][1] and ret[1] == asg[0].extra.get("uid")
+            ok = ok and (asg[0].extra.get("argvals") or [None])[0] == cl[0].res
+            return ok, "copy of the left operand, then %sAssign with the right operand, returned" % tr
+    # --- index loop: for i in 0..N { self.data[i] op= rhs.data[i] }
+    if tr.endswith("Assign") and backs:
+        ok = True
+        seen = False
+        for st in backs:
+            evs = st.event_list()
+            li = max(k for k, e in enumerate(evs) if e.kind == "loop")
+            wc = [e for e in evs[li:] if e.kind == "call" and (e.extra.get("trait") or "").split("::")[-1] == tr]
+            if not wc:
+                return None
+            seen = True
+            if len(wc) != 1:
+                ok = False
+                continue
+            a0, a1 = wc[0].args[0], wc[0].args[1]
+            i0 = a0[1][2] if a0[0] == "ref" and a0[1][0] == "index" else None
+            if i0 is None or i0[0] != "elem":
+                return None
+            full = i0[2] == mk_int(0) and i0[3] == N_
+            dst_ok = a0[1][1] == ("field", ("deref", p1), 0)
+            src_ok = a1[0] == "load" and a1[2] == ("index", ("field", ("deref", p2), 0), i0)
+            ok = ok and full and dst_ok and src_ok
+        if seen:
+            return ok, "for i in 0..N: self.data[i] %s rhs.data[i]" % tr
+    # --- Not as data.map(|w| !w)
+    if tr == "Not" and not backs:
+        for st in I.final_states:
+            ret = util.ret_term(st)
+            ok = False
+            if ret[0] == "agg" and ret[2] and ret[2][0][0] == "call" and str(ret[2][0][1]).endswith("::map"):
+                m = ret[2][0]
+                src, clo = m[2][0], m[2][1]
+                if src == ("proj", 0, p1) and clo[0] == "agg" and isinstance(clo[1], tuple) and clo[1][0] == "closure":
+                    cb = crate.by_key.get(clo[1][1])
+                    if cb is not None:
+                        Ic = util.analyse(cb)
+                        ok = bool(Ic.final_states) and all(util.ret_term(fs) == ("un", "Not", ("param", 2, Ic.names.get(2))) for fs in Ic.final_states)
+            return ok, "every word mapped through `!`"
+    return None
+
+
 def check(col, prog, tier, profile, fixture=None):
     crate = prog.crate(fixture or "rlib_bitset")
     sfx = "" if profile == "dev" else "@" + profile
@@ -75,6 +131,9 @@ def check(col, prog, tier, profile, fixture=None):
     f0 = util.fields_of(adt)[0]
     if not f0["ty"].startswith("[u64;"):
         raise Anchor("Bitset is expected to hold [u64; N]")
+    helpers = util.private_helpers(crate, "Bitset") + [f for f in crate.bodies if not f.is_closure and f.kind == "Fn" and f.container is None and f.vis != "pub" and not util.self_recursive(f)]
+    newb = util.opt_body(crate, "Bitset::<N>::new")
+    An = util.analyser(helpers + ([newb] if newb is not None else []))
     col.rule("K1" + sfx, "word = x div 64 and bit = x mod 64 of the same x in all point operations and the iterator", floor=5)
     col.rule("K2" + sfx, "set |= mask, remove &= !mask, flip ^= mask, test extracts the bit", floor=4)
     col.rule("K3" + sfx, "operators apply the same trait's word operator over the full zip; Not complements every word", floor=7)
@@ -84,7 +143,7 @@ def check(col, prog, tier, profile, fixture=None):
     table = {"set": "BitOr", "remove": "BitAnd", "flip": "BitXor"}
     for nm, op in table.items():
         b = util.need_body(crate, "Bitset::<N>::%s" % nm)
-        I = util.analyse(b)
+        I = An(b)
         x = ("param", 2, I.names.get(2))
         for st in I.final_states:
             stores = [e for e in st.event_list() if e.kind == "store"]
@@ -120,7 +179,7 @@ def check(col, prog, tier, profile, fixture=None):
             else:
                 col.violation("K2" + sfx, key, b.loc(), "%s must be `word %s= %smask` (%s)" % (b.path, {"BitOr": "|", "BitAnd": "&", "BitXor": "^"}[op], "!" if nm == "remove" else "", why))
     b = util.need_body(crate, "Bitset::<N>::test")
-    I = util.analyse(b)
+    I = An(b)
     x = ("param", 2, I.names.get(2))
     for st in I.final_states:
         r = util.ret_term(st)
@@ -171,18 +230,36 @@ def check(col, prog, tier, profile, fixture=None):
         col.violation("K1" + sfx, "%s|decomposition" % fk(nb), nb.loc(), "the bit iterator does not split its cursor as (idx/64, idx%64)")
     # iterator stepping
     okstep = okskip = False
-    for st in I.backedge_states.get(list(I.loops)[0], []) if I.loops else []:
+    from .. import zones as _z
+    selfp_i = ("deref", ("param", 1, I.names.get(1)))
+    idx_fields = set()
+    for st in I.all_end_states():
         for e in st.event_list():
-            if e.kind == "store":
-                v = e.val
-                if v[0] == "bin" and v[1] == "BitAnd" and v[3] in (("un", "Not", mk_int(63)), mk_int(~63), mk_int((1 << 64) - 64)) and v[2][0] == "bin" and v[2][1] == "Add" and v[2][3] == mk_int(64):
-                    zero = any(f[0] == "eq" and f[2] == 1 and isinstance(f[1], tuple) and f[1][0] == "bin" and f[1][1] == "Eq" and f[1][3] == mk_int(0) and f[1][2][0] == "bin" and f[1][2][1] == "Shr" for f in st.facts)
-                    okskip = zero
+            if e.kind == "store" and e.place[0] == "field" and e.place[1] == selfp_i:
+                idx_fields.add(e.place[2])
+    for st in [s_ for l in I.backedge_states.values() for s_ in l]:
+        for e in st.event_list():
+            if e.kind != "store" or not (e.place[0] == "field" and e.place[1] == selfp_i):
+                continue
+            v = e.val
+            old = I.load(e.state[1], e.place)
+            # next word boundary: (idx + 64) & !63   or   (idx / 64 + 1) * 64
+            form1 = v[0] == "bin" and v[1] == "BitAnd" and v[3] in (("un", "Not", mk_int(63)), mk_int(~63), mk_int((1 << 64) - 64)) and v[2] == ("bin", "Add", old, mk_int(64))
+            form2 = v[0] == "bin" and v[1] == "Mul" and mk_int(64) in (v[2], v[3]) and any(x == ("bin", "Add", ("bin", "Div", old, mk_int(64)), mk_int(1)) or x == ("bin", "Add", ("bin", "Shr", old, mk_int(6)), mk_int(1)) for x in (v[2], v[3]))
+            if form1 or form2:
+                zero = any(f[0] == "eq" and f[2] == 1 and isinstance(f[1], tuple) and f[1][0] == "bin" and f[1][1] == "Eq" and f[1][3] == mk_int(0) and f[1][2][0] == "bin" and f[1][2][1] == "Shr" for f in st.facts)
+                okskip = okskip or zero
     for st in I.final_states:
         r = util.ret_term(st)
         if r[0] == "agg" and r[1][3] == "Some":
             v = r[2][0]
-            okstep = any(s[0] == "call" and str(s[1]).endswith("trailing_zeros") for s in subterms(v)) and v[0] == "bin" and v[1] == "Sub" and v[3] == mk_int(1)
+            stores = [e for e in st.event_list() if e.kind == "store" and e.place[0] == "field" and e.place[1] == selfp_i]
+            if not stores:
+                continue
+            last = stores[-1]
+            # the value yielded is (cursor at entry of this round) + trailing_zeros(rest); the cursor ends one past it
+            has_tz = any(x[0] == "call" and str(x[1]).endswith("trailing_zeros") for x in subterms(v))
+            okstep = has_tz and util.lin_equal(last.val, ("bin", "Add", v, mk_int(1)))
     if okstep and okskip:
         col.ok("K4" + sfx, nb.loc(), "%s|stepping" % fk(nb), "skip a zero tail to the next word boundary; else advance by trailing_zeros + 1 and yield idx-1")
     else:
@@ -201,9 +278,17 @@ def check(col, prog, tier, profile, fixture=None):
         for it in imp["items"]:
             if it["key"] in crate.by_key:
                 b = crate.by_key[it["key"]]
-        I = util.analyse(b)
+        I = An(b)
         backs = [s for l in I.backedge_states.values() for s in l]
         key = "%s|wordwise" % fk(b)
+        alt = _wordwise_alt(crate, I, b, tr, backs)
+        if alt is not None:
+            okalt, desc = alt
+            if okalt:
+                col.ok("K3" + sfx, b.loc(), key, desc)
+            else:
+                col.violation("K3" + sfx, key, b.loc(), "%s does not apply the %s word operator to words i of both operands over all N words: %s" % (b.path, tr, desc))
+            continue
         if not backs:
             col.violation("K3" + sfx, key, b.loc(), "%s has no loop over the words" % b.path)
             continue
@@ -264,15 +349,36 @@ def check(col, prog, tier, profile, fixture=None):
 
     # ---------------- K4
     b = util.need_body(crate, "Bitset::<N>::count")
-    I = util.analyse(b)
+    I = An(b)
     ok = False
     for st in I.final_states:
         names = [e.extra.get("name") for e in st.event_list() if e.kind == "call"]
         ok = names[:3] == ["iter", "map", "sum"] or [n for n in names if n in ("iter", "map", "sum", "take", "skip", "filter")] == ["iter", "map", "sum"]
         cl = [c for c in crate.closures_of(b)]
         ok = ok and len(cl) == 1 and any(t["fn"].get("name") == "count_ones" for bb, t in cl[0].calls())
+    if not ok:
+        # explicit accumulation loop over every word: total += word.count_ones()
+        for h, sts in I.backedge_states.items():
+            its = [e for st in I.final_states for e in st.event_list() if e.kind == "call" and e.extra.get("name") in ("into_iter", "iter") and e.args and e.args[0] == ("ref", ("field", ("deref", ("param", 1, I.names.get(1))), 0))]
+            acc_ok = bool(sts) and bool(its)
+            for st in sts:
+                co = [e for e in st.event_list() if e.kind == "call" and e.extra.get("name") == "count_ones"]
+                if len(co) != 1:
+                    acc_ok = False
+                    continue
+                rets = [util.ret_term(fs) for fs in I.final_states]
+                accs = [r[2] for r in rets if r[0] == "phi"]
+                if not accs:
+                    acc_ok = False
+                    continue
+                nv = st.env.get(accs[0])
+                want_add = nv is not None and nv[0] == "bin" and nv[1] == "Add" and ("phi", h, accs[0]) in (nv[2], nv[3]) and any(x == co[0].res for x in list(subterms(nv)))
+                item_ok = any(x[0] == "call" and str(x[1]).endswith("::next") for x in subterms(co[0].args[0]))
+                acc_ok = acc_ok and want_add and item_ok
+            ent = [en.get(accs[0]) for en in I.loop_entry.get(h, [])] if sts and 'accs' in dir() and accs else []
+            ok = ok or (acc_ok and ent and all(x == mk_int(0) for x in ent))
     if ok:
-        col.ok("K4" + sfx, b.loc(), "%s|sum-of-count-ones" % fk(b), "data.iter().map(count_ones).sum()")
+        col.ok("K4" + sfx, b.loc(), "%s|sum-of-count-ones" % fk(b), "count_ones summed over every word")
     else:
         col.violation("K4" + sfx, "%s|sum-of-count-ones" % fk(b), b.loc(), "count must sum count_ones over all words")
     for tr in ("Display", "Debug"):
@@ -283,7 +389,7 @@ def check(col, prog, tier, profile, fixture=None):
                 fb = b_
         if fb is None:
             continue
-        I = util.analyse(fb)
+        I = An(fb)
         okr = False
         for st in I.final_states + I.diverged:
             for e in st.event_list():
@@ -293,12 +399,39 @@ def check(col, prog, tier, profile, fixture=None):
         cl = crate.closures_of(fb)
         tests = any(any((t["fn"].get("name") == "test") for bb, t in c.calls()) for c in cl)
         key = "%s|all-bits" % fk(fb)
+        if not (okr and tests):
+            # loop form: for i in 0..N*64 { write_char(if self.test(i) { '1' } else { '0' }) }
+            sts = [s_ for l in I.backedge_states.values() for s_ in l] + I.inl_back
+            seen_t = seen_f = False
+            okl = bool(sts)
+            for st in sts:
+                evs = st.event_list()
+                li = max(k for k, e in enumerate(evs) if e.kind == "loop")
+                ts = [e for e in evs[li:] if e.kind == "call" and e.extra.get("name") == "test"]
+                ws = [e for e in evs[li:] if e.kind == "call" and e.extra.get("name") in ("write_char", "push")]
+                if len(ts) != 1 or len(ws) != 1:
+                    okl = False
+                    continue
+                i_ = ts[0].args[1]
+                rng = i_[0] == "elem" and i_[2] == mk_int(0) and i_[3] in (("bin", "Mul", ("gparam", "N"), mk_int(W)), ("bin", "Mul", mk_int(W), ("gparam", "N")), ("bin", "Shl", ("gparam", "N"), mk_int(LOGW)))
+                truth = None
+                for f in st.facts:
+                    if f[1] == ts[0].res and f[0] in ("eq", "ne"):
+                        truth = (f[0] == "eq") == bool(f[2])
+                ch = ws[0].args[1]
+                chv = ch[1] if ch[0] == "int" else None
+                if not rng or truth is None or chv != (49 if truth else 48):
+                    okl = False
+                seen_t = seen_t or truth is True
+                seen_f = seen_f or truth is False
+            if okl and seen_t and seen_f:
+                okr = tests = True
         if okr and tests:
             col.ok("K4" + sfx, fb.loc(), key, "(0..N*64).map(|i| test(i))")
         else:
             col.violation("K4" + sfx, key, fb.loc(), "%s must render test(i) for every i in 0..N*64" % fb.path)
     b = util.need_body(crate, "Bitset::<N>::from_u64")
-    I = util.analyse(b)
+    I = An(b)
     for st in I.final_states:
         r = util.ret_term(st)
         x = ("param", 1, I.names.get(1))
